@@ -253,7 +253,10 @@ def merge(outs, pid, inconclusive, mod):
         m["capped"] |= res["digests_capped"]
         m["notes"] += res["notes"]
         for k, v in res["info"].items():
-            m["info"].setdefault(k, v)
+            if k == "exhaustive_complete":
+                m["info"][k] = bool(m["info"].get(k, True) and v)
+            else:
+                m["info"].setdefault(k, v)
         m["ext_path"] = res["ext_path"]
         m["py_path"] = res["py_path"]
     return m
@@ -321,9 +324,10 @@ def finish(a, pid, mod, m, inconclusive, t0, builddir, extra_cov=None):
         "distinct_capped_per_worker": bool(m["capped"]),
         "rule": mod.RULE,
         "samples": m["samples"],
-        "exhaustive": bool(getattr(mod, "EXHAUSTIVE", {}).get(a.tier, False))
-        if isinstance(getattr(mod, "EXHAUSTIVE", False), dict)
-        else bool(getattr(mod, "EXHAUSTIVE", False)),
+        "exhaustive": (bool(getattr(mod, "EXHAUSTIVE", {}).get(a.tier, False))
+                       if isinstance(getattr(mod, "EXHAUSTIVE", False), dict)
+                       else bool(getattr(mod, "EXHAUSTIVE", False)))
+        and bool(m["info"].get("exhaustive_complete", True)) and not inconclusive,
         "predicate_evaluations": dict(m["predicates"]),
         "input_classes": dict(m["classes"]),
         "events_by_api": dict(m["apis"]),
